@@ -140,6 +140,13 @@ struct C09 {
     run("probe: heartbeat of the monitored node", [&]() { s.rx(Frame::mk(0x700u + other, 1, {st})); }, e, mode);
     (void)m0;
   }
+  // a heartbeat (or boot-up) frame of a node that is NOT monitored is claimed by no service: it reaches the application
+  void probe_hb_unmonitored() {
+    Exp e; probe_count();
+    if (mode == M_STOP) e.app_free = true; else e.app = 1;
+    uint8_t nid = (uint8_t)(other == 20 ? 21 : 20);
+    run("probe: heartbeat of a node that is not monitored", [&]() { s.rx(Frame::mk(0x700u + nid, 1, {5})); }, e, mode);
+  }
   void probe_lss() {
     Exp e; probe_count();
     if (mode == STOPPED_NODE) return;
@@ -215,7 +222,7 @@ void case_random(Ctx &c) {
   int steps = 0;
   while (!c.t.exhausted() && steps < 200) {
     steps++; c.ops++;
-    uint32_t k = c.t.below(35);
+    uint32_t k = c.t.below(36);
     if (c.t.chance(20)) x.inject_send_fault = true;
     if (k == 29 && !c.t.chance(40)) k = 28;                     // node stop ends all checking: keep it rare
     if (k == 30) x.nmt_cmd(c.t.byte(), c.t.coin() ? x.s.nodeid : c.t.byte());
@@ -223,6 +230,7 @@ void case_random(Ctx &c) {
     else if (k == 32) { uint32_t n = 1 + c.t.below(5); for (uint32_t i = 0; i < n; i++) x.tick(); }
     else if (k == 33) x.nmt_cmd((uint8_t[]){1, 2, 128}[c.t.below(3)], c.t.coin() ? 0 : x.s.nodeid);
     else if (k == 34) x.probe_sdo_block();
+    else if (k == 35) x.probe_hb_unmonitored();
     else x.letter(k, c);
   }
   x.finish();
@@ -232,7 +240,7 @@ Registrar reg(Prop{
     "C09",
     "Cases: a node with one SDO server, an event-driven TPDO (random mode: with an inhibit time of 0..5 ticks, so that a postponed transmission can fall due after OPERATIONAL was left) and a synchronous TPDO (random mode also lets the CAN driver refuse the single frame of a step: the frame is lost, nothing else changes), an asynchronous RPDO, a heartbeat consumer entry, SYNC consumer, LSS, EMCY and a heartbeat producer of 1 tick; "
     "operation sequences over a 30-letter alphabet {NMT command {1,2,128,129,130} x {own id, 0}, start/reset to another id, unknown command specifiers, CONmtSetMode x3, CONodeStart, CONmtReset x2, one probe per service "
-    "(SDO read, in the random part also an SDO block download whose segment is processed silently, RPDO frame, SYNC, heartbeat of the monitored node, LSS, unrelated id, EMCY set/clear, TPDO trigger, tick), CONodeStop}: enumerated exhaustively to the depth bound (node id 1) and randomly up to 200 ops with node ids 1..127, random command specifiers/targets and heartbeat states. "
+    "(SDO read, in the random part also an SDO block download whose segment is processed silently, RPDO frame, SYNC, heartbeat of the monitored node (random part: also of a node that is not monitored - unclaimed), LSS, unrelated id, EMCY set/clear, TPDO trigger, tick), CONodeStop}: enumerated exhaustively to the depth bound (node id 1) and randomly up to 200 ops with node ids 1..127, random command specifiers/targets and heartbeat states. "
     "Oracle: reference CiA 301 slave state machine: mode after every op, exact mode-change and reset-request callback sequences, exactly the expected frames (boot-up once per INIT->PRE-OP entry; SDO answer only in PRE-OP/OP; TPDOs only in OP; EMCY only in PRE-OP/OP; heartbeat with the state byte in PRE-OP/OP/STOPPED; LSS answer always), "
     "RPDO effect only in OP, unclaimed frames handed to the application exactly once (not constrained in STOPPED and after CONodeStop). "
     "Non-trivial: >= 2 mode changes and >= 1 probe in a state other than PRE-OPERATIONAL. Distinct = distinct decoded choice sequence.",
